@@ -26,6 +26,8 @@ def plan(tier, seed):
     specs = [dict(seed=seed, shard=i, of=n, reps=reps) for i in range(n)]
     specs += [dict(kind='insn', seed=seed, shard=100 + i, n=2500 if tier == 'quick' else 120000) for i in range(4 if tier == 'quick' else 16)]
     specs += [dict(kind='bytewise', seed=seed, shard=200 + i, n=2500 if tier == 'quick' else 100000) for i in range(4 if tier == 'quick' else 16)]
+    from vf.props import _lock as L
+    specs += L.plan_rows(ID, LS_FAMILY, tier, seed, 60, 4000, 8, 32)
     return specs
 
 
@@ -133,6 +135,31 @@ def insn_rotated(spec, ls):
             why = 'a load changed memory'
         if why:
             ls.report('C13|insn-rotated-load|%s|E%d|lane%d' % (name, e, addr & 3), dict(desc, why=why), desc)
+
+
+LS_FAMILY = ('ls', 'ldm', 'stm', 'push', 'pop', 'ldm_eret', 'ldm_user', 'stm_user', 'srs', 'rfe', 'tbb', 'ldrex', 'strex')
+
+
+def ls_rows(spec):
+    """every instruction that accesses data memory, in lock-step with the reference, half of the cases big-endian, SCTLR.A/U
+    varied, saved PSRs with the other endianness (exception-return loads read their words with the CURRENT CPSR.E)"""
+    from vf.props import _lock as L
+    from vf import scen
+
+    def after(ctx, rng, desc):
+        r = ctx.cpu.registers
+        if ctx.cfg['arch_version'] >= 7:
+            r.sctlr.u = 1
+            r.sctlr.a = 1 if rng.random() < 0.2 else 0
+        else:
+            r.sctlr.u = rng.randrange(2)
+            r.sctlr.a = 1 if rng.random() < 0.2 else 0
+        for sp in ('spsr_svc', 'spsr_abt', 'spsr_und', 'spsr_irq', 'spsr_fiq', 'spsr_mon'):
+            if rng.random() < 0.5:
+                setattr(r, sp, getattr(r, sp) ^ (1 << 9))
+    return L.run_rows(ID, spec, LS_FAMILY, ctxs=[('v7-pmsa-r', 'off'), ('v6-pmsa-sec', 'off'), ('v7-vmsa-virt', 'off'), ('v5-pmsa', 'off')],
+                      regs_fn=lambda rng: [scen.reg_value(rng) for _ in range(15)], prep_kw=lambda rng: dict(e=rng.randrange(2)),
+                      after=after, solve_addr=0.15)
 
 
 def bytewise(spec):
@@ -313,6 +340,8 @@ def run_shard(spec):
         return insn_roundtrip(spec)
     if spec.get('kind') == 'bytewise':
         return bytewise(spec)
+    if spec.get('kind') == 'rows':
+        return ls_rows(spec)
     from vf import scen, machine as M, observe, lockstep
     from vf.ref.model import RefCPU, RefAbort, RefUnpredictable, RefNotModelled
     from vf.ref import mem as RM      # noqa
